@@ -291,7 +291,10 @@ class FnExec:
                 self.branch_exc(pc, bz == 0, "ZeroDivisionError", n)
                 return Val(REAL, z3.Function("real_div", z3.RealSort(), z3.RealSort(), z3.RealSort())(az, bz) if opaque else az / bz)
             if op == "FloorDiv" and not real:
-                self.branch_exc(pc, bz == 0, "ZeroDivisionError", n); return Val(INT, py_floordiv(az, bz))
+                self.branch_exc(pc, bz == 0, "ZeroDivisionError", n)
+                if getattr(self.spec, "opaque_arith", False) == "all":      # opaque integer arithmetic: a // b is an uninterpreted function of its operands on both sides
+                    return Val(INT, z3.Function("int_floordiv", z3.IntSort(), z3.IntSort(), z3.IntSort())(az, bz))
+                return Val(INT, py_floordiv(az, bz))
             if op == "Mod" and not real:
                 self.branch_exc(pc, bz == 0, "ZeroDivisionError", n); return Val(INT, py_mod(az, bz))
         if op == "Mult" and isinstance(a.t, ListT) and isinstance(b.t, IntT):
